@@ -399,7 +399,7 @@ func selectorField(info *types.Info, e ast.Expr) *types.Var {
 	}
 	if sel, ok := info.Selections[se]; ok && sel.Kind() == types.FieldVal {
 		if v, ok := sel.Obj().(*types.Var); ok {
-			return v
+			return v.Origin()
 		}
 	}
 	return nil
